@@ -149,6 +149,13 @@ def shards(tier, seed):
                 out += [(via, fmt, name, dfmt, ckey) for ckey in ckeys]
     for name, _ in names(tier, "none", None):
         out += [("none", None, name, None, ckey) for ckey in ckeys]
+    if tier == "quick":
+        # one content larger than the 100 MiB copy chunk, without injected
+        # faults, for one format of each compress_as branch
+        out += [("suffix", fmt, "big.%s" % fmt, fmt, "100MiB+1", phase, False,
+                 "block")
+                for fmt in ("gz", "xz") for phase in ("compress",
+                                                      "decompress")]
     if tier == "thorough":
         out += [("suffix", fmt, "big.%s" % fmt, fmt, "100MiB+1", phase, flag,
                  part)
